@@ -9,6 +9,7 @@ import (
 	"sort"
 	"strings"
 
+	blocks "github.com/ipfs/go-block-format"
 	"github.com/ipfs/go-cid"
 	"github.com/ipld/go-car/v2/blockstore"
 	"github.com/ipld/go-car/v2/storage"
@@ -542,10 +543,24 @@ func c06Judge(t *mon.T, d c06Desc, key func(string) string, phase string, ei, te
 		}
 	}
 	// continue: two more puts and Finalize
-	for _, b := range cont {
-		if err := s.put(b); err != nil {
-			viol("continued/put-error", "Put on the resumed store failed: %v", err)
+	if s.bs != nil && (ei+tear)%2 == 0 {
+		// the documented way to carry on after an interruption: the application re-issues everything it
+		// had asked for, as ONE batch — blocks already in the file are skipped, the rest is written
+		var batch []blocks.Block
+		for _, b := range append(append([]refcar.Block{}, invoked...), cont...) {
+			batch = append(batch, lab.ToBlock(b))
+		}
+		if err := s.bs.PutMany(bg, batch); err != nil {
+			viol("continued/putmany-error", "PutMany (everything re-issued as one batch) on the resumed store failed: %v", err)
 			return
+		}
+		t.Cover("continued:everything-re-issued-as-one-batch")
+	} else {
+		for _, b := range cont {
+			if err := s.put(b); err != nil {
+				viol("continued/put-error", "Put on the resumed store failed: %v", err)
+				return
+			}
 		}
 	}
 	if err := s.finalize(); err != nil {
